@@ -376,7 +376,15 @@ def gates_tie(ctx):
 def corr(ctx, name, go_cmd, go_args, driver_args, timeout=3600, only=None, const=None, ok_exit=(0,)):
     """Run a harness generator and the Lean driver on the same lines; compare.
     Returns (n_cases, mismatches [(index, line, code, model)], stats)."""
-    g = run([os.path.join(HBIN, go_cmd)] + [str(a) for a in go_args], timeout=timeout)
+    for attempt in range(4):
+        g = run([os.path.join(HBIN, go_cmd)] + [str(a) for a in go_args], timeout=timeout)
+        # the harness picks free TCP ports by binding port 0 and releasing it; another process on the
+        # machine can take the port before the server under test binds it.  That is not an observation
+        # about the code: run the generator again (same seed, same cases).
+        if g.returncode not in ok_exit and 'address already in use' in (g.stderr or '') and 'BIND-FAILURE' not in (g.stdout or ''):
+            time.sleep(1 + attempt)
+            continue
+        break
     ctx.last_stderr = g.stderr
     if g.returncode not in ok_exit:
         raise TieBroken(f'T-corr {name}', f'harness {go_cmd} exited {g.returncode}: {(g.stderr or g.stdout)[-1500:]}')
